@@ -43,6 +43,9 @@ SOURCES = {
     '<path d="M2,2 L60,2 L60,60 Z" fill="#0000FF"/></svg>',
     "fill with its own alpha channel + shape opacity": f'<svg {NS} viewBox="0 0 32 32"><defs/><path d="M1,1 L30,1 L30,30 Z" fill="#FF000080" opacity="0.5"/><path d="M2,2 L20,2 L20,20 Z" fill="#0F08"/></svg>',
     "palette variable whose default has an alpha channel + shape opacity": f'<svg {NS} viewBox="0 0 32 32"><defs/><path d="M1,1 L30,1 L30,30 Z" fill="var(--color1, #FF000080)" opacity="0.5"/><path d="M2,2 L20,2 L20,20 Z" fill="var(--color0, #0F08)"/><path d="M3,3 L9,3 L9,9 Z" fill="var(--color3, blue)" opacity="0.25"/></svg>',
+    "gradient stops with palette variables": f'<svg {NS} viewBox="0 0 64 64"><defs>'
+    '<linearGradient id="a" gradientUnits="userSpaceOnUse" x1="4" y1="4" x2="60" y2="4"><stop offset="0" stop-color="var(--color1, #00FF00)"/><stop offset="0.5" stop-color="var(--color3, #0000FF80)" stop-opacity="0.5"/><stop offset="1" stop-color="#FF0000"/></linearGradient>'
+    '</defs><path d="M4,4 L60,4 L60,40 L4,40 Z" fill="url(#a)" opacity="0.5"/><path d="M2,2 L20,2 L20,20 Z" fill="var(--color1, #00FF00)"/></svg>',
     "currentColor and palette variables": f'<svg {NS} viewBox="0 0 32 32"><defs/><path d="M1,1 L30,1 L30,30 Z" fill="currentColor" opacity="0.5"/><path d="M2,2 L20,2 L20,20 Z" fill="var(--color2, #ABCDEF)"/></svg>',
 }
 
